@@ -16,7 +16,7 @@ from ..orch import h
 from .c04 import http_get
 
 ID = "C08"
-TECHNIQUE = 'runtime monitoring - frame condition over consecutive store dumps around every kind-5 event (nothing but referenced own older events vanishes; those are gone from dump, REQ and GET /e/<id>); back-to-back bursts, orderly restart, two workers on one database'
+TECHNIQUE = 'runtime monitoring - frame condition over consecutive store dumps around every kind-5 event (nothing but referenced own older events vanishes; those are gone from dump, REQ and GET /e/<id>); back-to-back bursts, orderly restart, two workers on one database; end-to-end shard: a deletion accepted by one worker process, read back by REQ on every worker and by real HTTP GET /e/<id> (spread over the workers), after every worker had served the targets before'
 LEVEL = "exploration"
 RULE = (
     "cases = (backend, seeded history of 12-40 events of 3 authors mixing regular / replaceable targets with deletion "
@@ -30,15 +30,28 @@ RULE = (
     "at least one stored event (own or foreign). Distinct = distinct (backend, canonical history)."
 )
 ASSUMPTIONS = [
+    "end-to-end shards: a real gunicorn/uvicorn server process tree started from the tree under test (vf/e2e_launch.py: the repository's run_with_gunicorn / run_with_uvicorn; the SQL schema is made with the repository's metadata.create_all because its alembic env.py does not run with the installed SQLAlchemy; the notifier's fixed TCP port 6000 is replaced by a free port), spoken to over loopback TCP with the websockets client; real time, real sleeps",
     "a deletion needs to remove only referenced events of its author that are OLDER than itself; equal/newer ones are free",
     "LMDB backend over /verif/shim (judged after writer idle); SQL = SQLite",
 ]
 MIN_NONTRIVIAL = {"quick": 200, "thorough": 2000}
-REQUIRED_COUNTERS = ["clause.frame", "clause.must_remove", "clause.burst_must_remove", "clause.restart_must_remove", "two_worker_deletions", "served_checks", "served_checks_seen_before", "gets_before"]
+REQUIRED_COUNTERS = ["e2e.e2e_worker_readbacks", "e2e.e2e_http_readbacks", "clause.frame", "clause.must_remove", "clause.burst_must_remove", "clause.restart_must_remove", "two_worker_deletions", "served_checks", "served_checks_seen_before", "gets_before"]
 SHARD_TIMEOUT = {"quick": 500, "thorough": 3000}
 
 
 def plan(tier, seed):
+    return _plan(tier, seed) + e2e_plan(tier, seed)
+
+
+def e2e_plan(tier, seed):
+    """shards on a REAL server process tree (vf/e2e.py)"""
+    out = [{"mode": "e2e", "e2e": "c08", "backend": b, "workers": 2, "seed": seed} for b in ("sql", "lmdb")]
+    if tier == "thorough":
+        out += [{"mode": "e2e", "e2e": "c08", "backend": b, "workers": 3, "seed": seed + 1} for b in ("sql", "lmdb")]
+    return out
+
+
+def _plan(tier, seed):
     n, hs = (6, 12) if tier == "quick" else (48, 100)
     return [{"backend": b, "case_seed": seed * 7919 + i, "histories": hs, "bursts": 12 if tier == "quick" else 100} for b in ("sql", "lmdb") for i in range(n)]
 
@@ -445,6 +458,10 @@ async def run_many(backend, histories, counters):
 
 
 def run_shard(spec):
+    if spec.get("mode") == "e2e":
+        from .. import e2e_cases
+
+        return e2e_cases.run_e2e_shard(ID, spec)
     r = random.Random(spec["case_seed"])
     counters = {}
     histories = [gen_history(r) for _ in range(spec["histories"])]
@@ -473,6 +490,10 @@ def run_shard(spec):
 
 
 def replay(rp, spec):
+    if rp.get("mode") == "e2e":
+        from .. import e2e_cases
+
+        return e2e_cases.run_e2e_shard(ID, rp)
     counters = {}
     if "restart" in rp:
         v, nt = R.run(run_restart, rp["backend"], counters, rp["restart"])
